@@ -19,6 +19,7 @@ Definition jrule_ok (r : jrule) : Prop :=
   canon (jr_id r) /\ Forall jrfd_ok (jr_fds r) /\ (jr_nature r = NoCompression -> jr_fds r = []) /\
   jr_nature r <> Fragmentation.      (* __json__ raises NotImplementedError on a fragmentation rule (below) *)
 Definition jfield_ok (f : jfield) : Prop := canon (jf_val f).
+Definition jheader_ok (h : jheader) : Prop := Forall jfield_ok (jh_fields h).
 Definition jpdesc_ok (p : jpdesc) : Prop := Forall jfield_ok (jp_fields p) /\ canon (jp_payload p) /\ canon (jp_raw p).
 Definition jcontext_ok (c : jcontext) : Prop := Forall jrule_ok (jc_rules c).
 
@@ -140,6 +141,14 @@ Theorem field_json_roundtrip f : jfield_ok f -> field_from_json (field_to_json f
 Proof.
   intros H. unfold field_from_json, field_to_json. cbn [jget assoc_key jkey_eqb bind].
   rewrite (buf_json_roundtrip _ H). cbn [bind]. destruct f; reflexivity.
+Qed.
+
+Theorem header_json_roundtrip h : jheader_ok h -> header_from_json (header_to_json h) = Ok h.
+Proof.
+  intros Hf. unfold header_from_json, header_to_json. cbn [jget assoc_key jkey_eqb bind].
+  rewrite mapM_map_rt.
+  - cbn [bind]. destruct h; reflexivity.
+  - eapply Forall_impl; [|exact Hf]. intros a Ha. apply field_json_roundtrip. exact Ha.
 Qed.
 
 Theorem pdesc_json_roundtrip p : jpdesc_ok p -> pdesc_from_json (pdesc_to_json p) = Ok p.
